@@ -207,8 +207,9 @@ def proof_status(pr, tier):
         if bad or not rest:
             problems.append(f"theorem {t} is not closed: {txt[:500]}")
     if tier == "thorough" and not problems:
-        rc, out = sh(f"timeout 1500 coqchk -silent -o -R {COQ}/theories TP TP.{pr['module']}",
-                          cwd=COQ, timeout=1600)
+        sub = os.path.dirname(pr["files"][-1]).replace("/", ".")
+        rc, out = sh(f"timeout 2400 coqchk -silent -o -R {COQ}/theories TP TP.{sub}.{pr['module']}",
+                          cwd=COQ, timeout=2500)
         info["coqchk"] = out[-1500:]
         if rc != 0:
             problems.append("coqchk failed:\n" + out[-2000:])
